@@ -12,6 +12,8 @@ c_Clients1 == {"c1"}
 Tags(name) ==
   IF name = "A_Fail" /\ (shadow # <<>> \/ q # <<>>) THEN {"fail_with_diverted_writes"}
   ELSE IF name = "A_End" /\ (shadow # <<>> \/ q # <<>>) THEN {"end_with_diverted_writes"}
+  \* only reachable with SnapCloseWaits = FALSE: shutdown overtaking a snapshot (refusal probes replay these)
+  ELSE IF name = "W_Close" /\ apc \in {"snap.begun", "snap.captured", "snap.renamed", "snap.truncated"} THEN {"close_during_snapshot"}
   ELSE IF name = "W_Close" /\ mode THEN {"close_in_snapshot_mode"}
   \* only reachable with CaptureWaits = FALSE: the step the capture barrier forbids (refusal probes replay these)
   ELSE IF name = "A_Capture" /\ InFlight THEN {"capture_in_gap"}
@@ -21,7 +23,7 @@ L(a, name, c) == a /\ h' = Append(h, [a |-> name, c |-> c]) /\ cov' = cov \cup T
 InitH == Init /\ h = <<>> /\ cov = {}
 NextH ==
   \/ \E c \in Clients : L(C_Start(c), "C_Start", c) \/ L(C_Enqueue(c), "C_Enqueue", c) \/ L(C_Apply(c), "C_Apply", c)
-  \/ L(W_Recv, "W_Recv", "") \/ L(W_Tick, "W_Tick", "") \/ L(W_Flush, "W_Flush", "") \/ L(W_Close, "W_Close", "") \/ L(W_Dead, "W_Dead", "")
+  \/ L(W_Recv, "W_Recv", "") \/ L(W_Tick, "W_Tick", "") \/ L(W_Flush, "W_Flush", "") \/ L(W_Close, "W_Close", "") \/ L(W_Dead, "W_Dead", "") \/ L(E_CoreClose, "E_CoreClose", "")
   \/ L(A_Begin("snap"), "A_Begin", "snap") \/ L(A_Capture("snap"), "A_Capture", "snap") \/ L(S_Rename, "S_Rename", "snap")
   \/ L(A_Fail, "A_Fail", "snap")
   \/ L(S_Truncate, "S_Truncate", "snap") \/ L(A_End("snap"), "A_End", "snap") \/ L(A_Reappend("snap"), "A_Reappend", "snap")
